@@ -35,6 +35,10 @@ SPEC = {
 }
 
 
+class HarnessError(Exception):
+    pass
+
+
 class Box:
     """A mutable value that is nevertheless hashable (like any ordinary user object)."""
 
@@ -360,6 +364,8 @@ class PartRun:
         self.expected = []
         self.k = 0
         self.skipped = 0
+        self.measured_idx = []
+        self.cb_failed = False
 
     def fail(self, name, msg):
         if not self.failed:
@@ -368,6 +374,10 @@ class PartRun:
 
     def on_sense(self, s, t, d):
         self.cb_log.append((s, t, list(d)))
+        self.measured_idx.append(len(self.finished) - 1)
+        if self.case.get('cb_fails') and len(self.measured_idx) == self.case['cb_fails'] and not self.cb_failed:
+            self.cb_failed = True
+            raise HarnessError('the on-sense callback failed')        # user code failing once
         cap = self.case['capacity']
         n = max(len(v) for v in s.data.values())
         if cap is not None and n > cap:
@@ -385,6 +395,21 @@ class PartRun:
         if self.failed:
             return
         n = self.case['n']
+        if self.cb_failed:
+            # after a measurement during which user code failed, which part is measured next is not laid down;
+            # what still holds: never more than n finished parts in a row go unmeasured, and the series stay aligned
+            last = self.measured_idx[-1] if self.measured_idx else -1
+            gaps = [b - a for a, b in zip(self.measured_idx, self.measured_idx[1:])]
+            if (gaps and max(gaps) > n + 1) or len(self.finished) - 1 - last > n:
+                self.fail('part_measurement', f'after a failed on-sense callback: {len(self.finished)} parts finished, '
+                          f'measured part numbers {[i + 1 for i in self.measured_idx]} (sensing interval {n})')
+                return
+            lens = {len(v) for v in self.sensor.data.values()}
+            if len(lens) > 1:
+                self.fail('alignment', f'series of different lengths: {[len(v) for v in self.sensor.data.values()]}')
+            self.cb_log = []
+            self.sh.count('events_judged_after_a_failed_callback')
+            return
         # which finished parts must have been measured so far: 1, n+2, 2n+3, ...
         want = []
         for i, (t, part, q, pid, val) in enumerate(self.finished):
@@ -417,7 +442,16 @@ class PartRun:
                 for t in case['failures']:
                     self.proc.schedule_failure(t)
                     self.env.schedule_event(t + 0.5, -2, self.proc.restore_functionality, 9)
-                self.system.simulate(case['horizon'], print_summary=False)
+                import contextlib
+                import io
+                for _ in range(20):
+                    try:
+                        with contextlib.redirect_stdout(io.StringIO()):
+                            self.system.simulate(case['horizon'] - self.env.now, print_summary=False)
+                        if self.env.now >= case['horizon'] or not self.cb_failed:
+                            break
+                    except HarnessError:
+                        self.sh.count('user_code_exceptions_caught_and_continued')
             except Exception as e:
                 import traceback
                 self.fail('crash', f'{type(e).__name__}: {e} {traceback.format_exc()[-1000:]}')
@@ -472,7 +506,7 @@ def gen_part(rng, tie):
             'qualities': [rng.choice([1, 0.5, 0.25, 0.75]) for _ in range(rng.randint(1, 4))],
             'failures': sorted(rng.sample([x / 2 for x in range(2, 80)], rng.choice([0, 0, 1, 3]))),
             'horizon': float(rng.choice([20, 40, 60, 60, 300])), 'tie': tie, 'tie_seed': rng.randrange(1 << 30),
-            'batch': rng.choice([None, None, 2, 3, 4])}
+            'batch': rng.choice([None, None, 2, 3, 4]), 'cb_fails': rng.choice([None, None, None, 1, 2, 3, 4])}
 
 
 def run_case(sh, case):
